@@ -31,10 +31,14 @@ class Wire(SingleDevice):
 
     def run(self, env: Environment):
         while True:
-            packet = yield self.store.get()
+            # An entry of the store is (instant the packet entered this wire, packet): the
+            # instant is kept with the queued entry because packet.current_time is one field
+            # per Packet object, and the same object can be inside wires more than once
+            # (a retransmission of the same object, a hub feeding several wires).
+            entry = yield self.store.get()
             if not self.loss_rate or random.uniform(0, 1) >= self.loss_rate:
                 # The amount of time for this packet to stay in my store
-                queued_time = self.env.now - packet.current_time
+                queued_time = self.env.now - entry[0]
                 delay = self.delay_dist()
 
                 # If queued time for this packet is greater than its propagation delay,
@@ -45,14 +49,14 @@ class Wire(SingleDevice):
                     yield env.timeout(delay - queued_time)
 
                 if self.debug:
-                    print(f"Left wire #{self.wire_id} at {self.env.now:.2f}: {packet}")
+                    print(f"Left wire #{self.wire_id} at {self.env.now:.2f}: {entry[1]}")
 
                 assert self.out
-                self.out.put(packet)
+                self.out.put(entry[1])
             else:
                 if self.debug:
                     print(
-                        f"Dropped on wire #{self.wire_id} at {self.env.now:.2f}: {packet}"
+                        f"Dropped on wire #{self.wire_id} at {self.env.now:.2f}: {entry[1]}"
                     )
 
     def put(self, packet: Packet):
@@ -61,7 +65,7 @@ class Wire(SingleDevice):
         if self.debug:
             print(f"Entered wire #{self.wire_id} at {self.env.now}: {packet}")
         packet.current_time = self.env.now
-        self.store.put(packet)
+        self.store.put((self.env.now, packet))
 
 
 class Cable:
